@@ -347,6 +347,9 @@ func TestC07(t *testing.T) {
 			c.Pipe.Config.Veneers = nil
 		}
 		pipeLabels(run, c.Pipe)
+		sample := pipeSample(c.Pipe)
+		sample["mode"], sample["alone"], sample["perm"], sample["altered"] = c.Mode, c.Alone, c.Perm, c.Altered
+		run.Sample(sample)
 		if vs := c07CheckRun(run, c); len(vs) > 0 {
 			vlib.Fail(rt, run.Judge(c, vs))
 		}
